@@ -119,7 +119,10 @@ def run_level(grammar, T, optimizer, cap=10 ** 9, budget_s=20.0):
     out = []
     t0 = time.time()
     while True:
-        g = mc.next_guess()
+        try:
+            g = mc.next_guess()
+        except Exception as e:                       # the implementation raised inside next_guess
+            return out, "error:%s" % type(e).__name__
         if g is None:
             return out, "done"
         out.append(g)
